@@ -16,7 +16,8 @@ HARNESS_JOBS = 2
 RULE = ("random perfect-recall trees and frontier-adversarial trees (BFS levels of exactly 3k-1, 3k, 3k+1 nodes for k "
         "threads; 15 % in a far-out payoff unit 2^-200..2^150) x parameter sets x budgets {0,1,2,3,4,10} x thresholds x thread counts {2,3,4,8,16,64}: each configuration is "
         "solved with one thread and with k threads (repeated with different seeded yield-point perturbations) and both are "
-        "compared with each other (monitor, 1e-9 relative) and with the model; non-trivial = budget >= 2 on a tree with >= 7 "
+        "compared with each other (monitor, 1e-9 relative) and with the model; a quarter of the Full cases also issue the solve from "
+        "two user threads at the same time on one Game and compare both results with the lone run; non-trivial = budget >= 2 on a tree with >= 7 "
         "nodes (the frontier really splits and the workspace is reused across iterations); distinct by (tree, config) hash")
 ASSUMPTIONS = ["atomic fetch_add/fetch_sub, Mutex and rayon's scope/par_drain/par_extend are trusted to behave as documented; "
                "the theorem covers all interleavings of atomic increments"]
@@ -46,6 +47,14 @@ def build(cid, t, st, method, params, T, r, draws, ks, reps, rng, record=False):
             cb.named(s)
             runs.append((k, len(cb.ops) - 2))
     cb.meta["runs"] = runs
+    cb.meta["pairs"] = []
+    if method == "full" and rng.random() < 0.25:
+        # the same solve issued from two user threads at once on the one Game value
+        k = rng.choice(ks + [1])
+        presets = {"vanilla", "lcfr", "cfr_plus", "dcfr", "dcfr_prune", "default"}
+        jp = params if (params is None or (isinstance(params, str) and params in presets)) else [f2b(x) for x in params]
+        idx = cb.raw("solve_pair", {"op": "solve_pair", "iters": T, "max_reg": f2b(r), "threads": k, "params": jp}, [], "OTag 3 []")
+        cb.meta["pairs"].append((k, idx))
     return cb
 
 
@@ -150,6 +159,32 @@ def monitor(cb, impl):
                                  % (k, "chance" if kind == 0 else "player", cid_, pas), "double-draw"))
                     break
                 seen.add(key)
+    for k, idx in m.get("pairs", []):
+        o = ops[idx] if idx < len(ops) else {}
+        if "ok" not in o:
+            if "panic" in o:
+                hits.append(("two simultaneous solves: %s" % o["panic"], "panic"))
+            continue
+        for which, one in enumerate(o["ok"]):
+            if "ok" not in one:
+                if one.get("err") == "ThreadSpawnError":
+                    continue
+                hits.append(("one of two simultaneous solves (%d threads each) returned %r" % (k, one), "concurrent-error"))
+                continue
+            bk = [b2f(x) for x in one["ok"]["bounds"]]
+            vk = _view({"ok": one["ok"]["named"]})
+            scale = max(1.0, max([abs(x) for x in b0 if math.isfinite(x)] or [1.0]))
+            bad = any((math.isinf(x) or math.isinf(y)) and x != y or (math.isfinite(x) and math.isfinite(y) and abs(x - y) > 1e-9 * scale)
+                      for x, y in zip(b0, bk))
+            for pl in (0, 1):
+                for i in v0[pl]:
+                    for a in set(v0[pl][i]) | set(vk[pl].get(i, {})):
+                        if abs(v0[pl][i].get(a, 0.0) - vk[pl].get(i, {}).get(a, 0.0)) > 1e-9:
+                            bad = True
+            if bad:
+                hits.append(("%s, %d iterations, params %r: a solve (%d threads) issued while another solve of the same game was "
+                             "running returned bounds %r, alone it returns %r" % (m["method"], m["T"], m["params"], k, bk, b0),
+                             "concurrent-solves"))
     return hits
 
 
